@@ -1,11 +1,12 @@
 (* C01 — the returned composition satisfies the law of mass action.
    What is a theorem: the fixed points of the Newton iteration are exactly the mass-action states; the
-   Newton-step residual identity; the Saha / Guldberg-Waage form.  NOT a theorem: that the floating-point
+   Newton-step residual identity; the Saha / Guldberg-Waage form; such a state is the global minimum of the ideal Gibbs
+   function over all compositions with the same element and charge totals (it IS the equilibrium).  NOT a theorem: that the floating-point
    iteration reaches the fixed point for every (T, P, x0) — the stopping rule inspects only the most abundant
    species; residuals above the mole-fraction floor are validated on the implementation. *)
 From Coq Require Import Reals List Lra.
 Import ListNotations.
-From MPC Require Import Num Species RInst StatMech RVec GenSpecies RefEnergy Gibbs C02_proofs C01_proofs.
+From MPC Require Import Num Species RInst StatMech RVec GenSpecies RefEnergy Gibbs C02_proofs C01_proofs C09_proofs C10_proofs C10_kkt.
 Open Scope R_scope.
 
 (* the chemical potential as coded (with V = N_tot kT / P inside Z_tot) is a function of the density n = N/V only *)
@@ -65,6 +66,21 @@ Theorem C01_mu_log_form : forall (U : Units R) (T V : R) (sp : species R) (n e0 
   e0 - k_b U * T * (ln (translational_Z RNum U sp T * Zint RNum U sp T de) - ln (n / V)).
 Proof. exact mu_log_form. Qed.
 Print Assumptions C01_mu_log_form.
+
+(* a mass-action state is THE equilibrium: among all positive compositions with the same constraint totals (every constraint
+   column orthogonal to N' - N) and the same species data, it has the smallest Gibbs energy G = sum N_i mu_i (Gibbs'
+   inequality; reference energies and lowerings held at the values of the state, i.e. the ideal mixture) *)
+Theorem C01_mass_action_state_minimises_gibbs :
+  forall (U : Units R) (T P : R) (ps : list (entry * entry)) (cols : list (list R)) (lam : list R),
+  0 < k_b U * T -> 0 < P -> ps <> [] -> Forall same_data ps -> Forall (pair_pos U T) ps ->
+  let nu := map (fun p => e_n (snd p) - e_n (fst p)) ps in
+  let mu := map (fun p => mu_at U T (Ntot (map fst ps) * (k_b U * T) / P) (fst p)) ps in
+  Forall (fun c => List.length c = List.length nu) cols ->
+  Forall2 (fun mi ai => mi = - ai) mu (alam RNum cols lam (repeat 0 (List.length nu))) ->
+  Forall (fun c => dotR c nu = 0) cols ->
+  Gibbs_fn U T P (map fst ps) <= Gibbs_fn U T P (map snd ps).
+Proof. exact kkt_point_is_minimiser. Qed.
+Print Assumptions C01_mass_action_state_minimises_gibbs.
 
 (* non-vacuity: O2 <-> 2 O with columns (element O; charge): nu = (1, -2) is a reaction *)
 Example C01_reaction_exists : Forall (fun c => dotR c [1; -2] = 0) [[2; 1]; [0; 0]].
